@@ -7,6 +7,7 @@ import (
 	"strings"
 
 	"golang.org/x/tools/go/ssa"
+	"golang.org/x/tools/go/ssa/ssautil"
 )
 
 // Thread-modular rules (DESIGN 2.4).
@@ -99,6 +100,59 @@ func (concurrencyModel) recv(g *VCGen, x *ssa.UnOp) {
 	}
 	g.pathCond = and(g.pathCond, fmt.Sprintf("(not (= %s 0))", ch.T))
 	g.usedTrusted["channel receive yields an arbitrary value of the element type; blocking is not modelled (partial correctness)"] = true
+	// a channel nobody ever sends on: a completed receive means it has been closed (and closed is stable)
+	if key := chanFieldKey(x.X); key != "" && g.eng.contracts.NeverSent[key] {
+		g.chanHeaps()
+		if bad := g.eng.sendsOnField(key); bad != "" {
+			g.oblige("neversent."+key, "monitor", "false", "declared 'neversent' but "+bad+" sends on it", x.Pos())
+		}
+		g.assumeHere(fmt.Sprintf("(select %s %s)", g.heapTerm(g.cur, chanClosedHeap), ch.T))
+	}
+}
+
+// chanFieldKey: "pkgpath.Type.field" if v is a load of a struct field
+func chanFieldKey(v ssa.Value) string {
+	u, ok := v.(*ssa.UnOp)
+	if !ok {
+		return ""
+	}
+	fa, ok := u.X.(*ssa.FieldAddr)
+	if !ok {
+		return ""
+	}
+	n, ok := fa.X.Type().Underlying().(*types.Pointer).Elem().(*types.Named)
+	if !ok || n.Obj().Pkg() == nil {
+		return ""
+	}
+	return n.Obj().Pkg().Path() + "." + n.Obj().Name() + "." + n.Underlying().(*types.Struct).Field(fa.Field).Name()
+}
+
+// sendsOnField: name of a function that sends on the channel stored in that field ("" if none)
+func (eng *Engine) sendsOnField(key string) string {
+	if r, ok := eng.sendCache[key]; ok {
+		return r
+	}
+	res := ""
+	for fn := range ssautil.AllFunctions(eng.prog) {
+		for _, b := range fn.Blocks {
+			for _, in := range b.Instrs {
+				switch x := in.(type) {
+				case *ssa.Send:
+					if chanFieldKey(x.Chan) == key {
+						res = fn.String()
+					}
+				case *ssa.Select:
+					for _, st := range x.States {
+						if st.Dir == types.SendOnly && chanFieldKey(st.Chan) == key {
+							res = fn.String()
+						}
+					}
+				}
+			}
+		}
+	}
+	eng.sendCache[key] = res
+	return res
 }
 
 func (concurrencyModel) closeChan(g *VCGen, c *ssa.CallCommon, pos token.Pos) {
